@@ -463,7 +463,7 @@ pub fn par_for<L: Send>(total: usize, deadline: Instant, new_local: impl Fn() ->
 pub fn explore_spaces(spaces: &[Space], focus: &Focus, deadline: Instant, total: &mut Stats, log: &mut Vec<Value>) {
     for sp in spaces {
         if crate::ishim::skip_space_in_this_build(sp.specs.len()) {
-            log.push(json!({"space": sp.label, "graphs": sp.specs.len(), "skipped": "quick tier of the default-feature build leaves spaces of more than 3000 graphs to the thorough tier"}));
+            log.push(json!({"space": sp.label, "graphs": sp.specs.len(), "skipped": format!("the default-feature build leaves spaces of more than {} graphs to {}", crate::ishim::space_max_graphs(), if crate::ishim::space_max_graphs() == 3000 { "the thorough tier" } else { "the interruptible build" })}));
             continue;
         }
         let t0 = Instant::now();
